@@ -376,3 +376,58 @@ Definition c09_case_held (par : bool) (sc : scen) (ob : obs) (untouched opens : 
 
 (* a pre-existing valid catalog of k patches of other data *)
 Definition old_catalog (k : nat) : target := TDir false (seq 101 k) true.
+
+(* ---------- call options: what the main loop iterates over ----------
+   The keywords of from_dataframe / from_file / from_random that are not part of the input (progress, degrees, the
+   chunk size, probe_size) must not change the outcome.  One of them changes WHAT the main loop iterates:
+   progress=True wraps the reader in utils/logging.py:Indicator, in sequential and in parallel mode.  A chunk
+   iterator is a finite stream: the chunks it yields and how it stops. *)
+Inductive ending := SEnd | SErr.
+Definition stream := (list nat * ending)%type.
+
+(* the chunk at which the READER raises (a worker fault is raised by the loop body, not by the iterator) *)
+Definition reader_fault_at (sc : scen) : option nat :=
+  match flt sc with
+  | Some f => match where_ f with
+              | InReader => if at_chunk f <? length (input sc) then Some (at_chunk f) else None
+              | _ => None
+              end
+  | None => None
+  end.
+Definition reader_stream (sc : scen) : stream :=
+  match reader_fault_at sc with Some c => (firstn c (input sc), SErr) | None => (input sc, SEnd) end.
+
+(* Indicator.__iter__:  i = 0; for item in iterable: i += 1; display(i); yield item;  then close(i).
+   Result: the stream handed on and the step numbers written to the terminal. *)
+Fixpoint indicator_loop (xs : list nat) (i : nat) : list nat * list nat :=
+  match xs with
+  | [] => ([], [])
+  | x :: r => let (ys, shown) := indicator_loop r (S i) in (x :: ys, S i :: shown)
+  end.
+Definition indicator (s : stream) : stream * list nat :=
+  let (ys, shown) := indicator_loop (fst s) 0 in
+  ((ys, snd s), match snd s with SEnd => shown ++ [length ys] | SErr => shown end).
+(* a display that terminates its line in a `finally` block and leaves that block with `return` when fewer
+   than `total` items came: the exception in flight is discarded, the stream simply ends *)
+Definition indicator_return_in_finally (total : nat) (s : stream) : stream * list nat :=
+  let (ys, shown) := indicator_loop (fst s) 0 in
+  ((ys, if length ys <? total then SEnd else snd s),
+   if length ys <? total then shown else shown ++ [length ys]).
+
+(* the scenario the pipeline executes when its main loop iterates `w reader` instead of `reader`, for a wrapper
+   that keeps the items: if the error still arrives, the same scenario; if the stream just ends, a fault-free
+   creation of the chunks that came.  The outcome is then judged against the ORIGINAL scenario. *)
+Definition keeps_items (w : stream -> stream) : Prop := forall s, fst (w s) = fst s.
+Definition through (w : stream -> stream) (sc : scen) : scen :=
+  match reader_fault_at sc with
+  | Some _ =>
+      match w (reader_stream sc) with
+      | (_, SErr) => sc
+      | (ys, SEnd) => {| input := ys; flt := None; pre := pre sc; overwrite := overwrite sc;
+                         early := early sc; empty_centre := empty_centre sc |}
+      end
+  | None => sc
+  end.
+Definition with_progress (sc : scen) : scen := through (fun s => fst (indicator s)) sc.
+Definition with_swallowing_progress (sc : scen) : scen :=
+  through (fun s => fst (indicator_return_in_finally (length (input sc)) s)) sc.
